@@ -240,7 +240,7 @@ def attribute(case, v):
 
     prog = case[0][2]
     sig = str(v.extra.get("sig", ""))
-    if v.kind == "process-raised" and sig.startswith("RelationalAlgebraError@_engine.py:_append_binary_to_select"):
+    if v.kind == "process-raised" and sig.startswith(("RelationalAlgebraError@_engine.py:_append_binary_to_select", "RelationalAlgebraError@_engine.py:materialize")):
         from vf.core.known import trig_sorted_chain_with_empty_operand
 
         if trig_sorted_chain_with_empty_operand(prog, case[0][1]):
